@@ -142,6 +142,9 @@ def explore(ctx):
         # affine maps v -> a*v + b (exact: power-of-two a, integer b)
         a = rng.choice([0.25, 0.5, 2.0, 4.0, 8.0, 1.0])
         b = rng.choice([0, 7, -7, 2 ** 22, -1000, 10 ** 6, 3])
+        if rng.random() < 0.3:
+            # very faint or very bright data (units of 1e-9 or 1e12 of the usual ones): a pure power-of-two scaling
+            a, b = rng.choice([2.0 ** -30, 2.0 ** -40, 2.0 ** -60, 2.0 ** 40, 2.0 ** -100]), 0
         s_ = float(2 ** c.get('scale', 0))
         check('value:affine a=%s b=%s' % (a, b), arr * a + b, idx,
               minv=(c['minv'] / s_) * a + b, delta=(c.get('delta', 0) / s_) * a)
@@ -190,6 +193,7 @@ def explore(ctx):
         ctx.tie_mismatch('compute (base run)', cases[i], refs[i], tie.model_compute_view(cases[i], 'c16_dump'))
     narrow_threshold_stream(ctx)
     translation_edge_stream(ctx)
+    seeded_flip_stream(ctx)
     # the relabellings the theorems speak about are the ones numpy performs
     rc.run_relabel_tie(ctx, 'c16_relab', ['flip', 'pad', 'swap', 'unit', 'perm', 'perm'], 240 if ctx.quick else 2400)
 
@@ -244,6 +248,49 @@ def narrow_threshold_stream(ctx):
             ctx.oracle_failure({'stream': 'power-of-two sizes', 'shape': list(shape), 'data': arr.ravel().tolist() if npx <= 256 else '(%d values)' % npx}, fails)
 
 
+def seeded_flip_stream(ctx):
+    """contains_seeds under flips and axis exchanges with the seed positions mapped along with the pixels (distinct
+    values): the hierarchy is the same.  Oracle only (the relabelling theorems exclude this criterion, whose meaning is
+    tied to positions)."""
+    from astrodendro import pruning
+    rng = ctx.rng('c16-seeds')
+    for it in range(120 if ctx.quick else 1200):
+        shape = rng.choice([(3, 5), (4, 4), (2, 7), (3, 3, 2), (5, 3)])
+        npx = int(np.prod(shape))
+        vals = list(range(1, npx + 1))
+        rng.shuffle(vals)
+        arr = np.array(vals, dtype=float).reshape(shape)
+        idx = np.arange(npx).reshape(shape)
+        seeds = rng.sample(range(npx), rng.randint(1, 3))
+        mv = rng.choice([0, npx // 4])
+
+        def run_(a_, i_):
+            flat = i_.ravel().tolist()
+            pos = [flat.index(p_) for p_ in seeds]                       # where the seeded pixels are now
+            coords = tuple(np.asarray(c_) for c_ in np.unravel_index(np.array(pos), a_.shape))
+            d_ = Dendrogram.compute(np.ascontiguousarray(a_), min_value=mv, is_independent=pruning.contains_seeds(coords))
+            return hierarchy_mapped(d_, a_.shape, flat)
+        info = {'stream': 'seeded flips', 'shape': list(shape), 'data': vals, 'seed_pixels': seeds, 'min_value': mv}
+        try:
+            h0 = run_(arr, idx)
+            fails = []
+            for _ in range(3):
+                perm = list(range(len(shape)))
+                rng.shuffle(perm)
+                sl = tuple(slice(None, None, -1) if rng.random() < 0.5 else slice(None) for _ in shape)
+                a2, i2 = arr.transpose(perm)[sl], idx.transpose(perm)[sl]
+                h = run_(a2, np.ascontiguousarray(i2))
+                if h != h0:
+                    fails.append('axes %s, flips %s: hierarchy %s, in the original orientation %s' % (perm, [s_.step == -1 for s_ in sl], h, h0))
+                    break
+        except Exception as e:
+            fails = ['raised %r' % (e,)]
+        ctx.count('seeded_flip_cases')
+        ctx.case_done(None, ('seeded', tuple(vals), shape, tuple(seeds)) if len(h0) >= 2 else None)
+        if fails:
+            ctx.oracle_failure(info, fails)
+
+
 def translation_edge_stream(ctx):
     """Translations v -> v + b with the parameters mapped along, where the arithmetic is delicate: (a) b = 2**52 or
     2**53 - 64 (every sum exact, spacing of doubles 1) with a half-integral min_delta; (b) integer data moved across
@@ -254,7 +301,18 @@ def translation_edge_stream(ctx):
         npx = int(np.prod(shape))
         vals = [rng.randint(1, 12) for _ in range(npx)]
         ident = list(range(npx))
-        if rng.random() < 0.5:
+        mode_ = rng.random()
+        if mode_ < 0.3:
+            # the same picture in units 2**-30 ... 2**-100 (or 2**40) of the original ones, min_delta scaled along
+            a_ = rng.choice([2.0 ** -30, 2.0 ** -40, 2.0 ** -60, 2.0 ** -100, 2.0 ** 40])
+            delta = float(rng.randint(1, 4))
+            mv = rng.choice([0, 2])
+            base = np.array(vals, dtype=float).reshape(shape)
+            moved = base * a_                                            # exact
+            kw0 = dict(min_value=float(mv), min_delta=delta)
+            kw1 = dict(min_value=float(mv) * a_, min_delta=delta * a_)
+            what = 'float64 data x %r, min_delta %r x %r' % (a_, delta, a_)
+        elif mode_ < 0.65:
             b = rng.choice([2 ** 52, 2 ** 53 - 64, 2 ** 52 + 1])
             delta = rng.randint(0, 3) + 0.5
             mv = rng.choice([0, 2])
@@ -289,7 +347,7 @@ def translation_edge_stream(ctx):
         except Exception as e:
             fails = ['compute raised %r' % (e,)]
             d0 = []
-        ctx.count('translation_edges=%s' % ('large offset' if 'min_delta' in kw0 else 'integers across zero'))
+        ctx.count('translation_edges=%s' % ('scaling' if ' x ' in what else ('large offset' if 'min_delta' in kw0 else 'integers across zero')))
         ctx.case_done(None, ('translate', tuple(vals), shape, what) if len(d0) >= 2 else None)
         if fails:
             ctx.oracle_failure(info, fails)
